@@ -24,6 +24,15 @@ Theorem c11_callbacks_alternate : forall cs, alternate true (cbs (snd (run init 
 Proof. exact callbacks_alternate. Qed.
 Print Assumptions c11_callbacks_alternate.
 
+(* ... and when the call has returned, every connect has been followed by its disconnect: the next callback
+   the alternation allows is a connect (expect_after ... = Some true).  A return out of an established
+   connection without the disconnect report (seed C11-14: a `return` from inside the ASCII read loop) is
+   not a run of the system; Run/C11.v judges it as c11-unbalanced *)
+Theorem c11_callbacks_balanced_at_return : forall cs,
+  s_m (fst (run init cs)) = MReturned -> expect_after true (cbs (snd (run init cs))) = Some true.
+Proof. exact callbacks_balanced_at_return. Qed.
+Print Assumptions c11_callbacks_balanced_at_return.
+
 (* a disconnect is reported as cancelled only after the cancellation, and is then the last callback *)
 Theorem c11_cancelled_flag_sound : forall cs,
   cancelled_last (cbs (snd (run init cs))) = true /\
